@@ -389,6 +389,13 @@ pub struct PrintOpts {
     /// redundant parentheses around the whole value of every definition, assignment and `ret`
     /// (if- and case-expressions in those positions are otherwise written bare)
     pub paren_values: bool,
+    /// per-site choice between a trailing expression and `ret e`: bit k decides tail site k (print order; a site is
+    /// the last expression statement of a function body unless it is an if / case expression, whose branch tails are
+    /// values of the if, not trailing expressions of the function); sites beyond the mask follow `explicit_ret`.
+    /// `None` = all-or-nothing by `explicit_ret`
+    pub ret_mask: Option<u64>,
+    /// shared counter of tail sites seen so far (shared with nested printers)
+    pub ret_sites: Arc<std::sync::atomic::AtomicU32>,
 }
 
 pub struct Printed {
@@ -406,11 +413,13 @@ pub struct Printer {
     stmt_counter: u32,
     /// bracket nesting depth of the expression being printed (newlines are insignificant when > 0)
     depth: Cell<u32>,
+    /// the block being printed ends a function body (its last statement is a tail site)
+    in_tail: bool,
 }
 
 impl Printer {
     pub fn new(opts: PrintOpts) -> Self {
-        Printer { out: String::new(), line: 1, indent: 0, opts, unreachable_lines: Vec::new(), stmt_counter: 0, depth: Cell::new(0) }
+        Printer { out: String::new(), line: 1, indent: 0, opts, unreachable_lines: Vec::new(), stmt_counter: 0, depth: Cell::new(0), in_tail: false }
     }
 
     fn bracketed<R>(&self, f: impl FnOnce() -> R) -> R {
@@ -529,26 +538,53 @@ impl Printer {
 
     pub fn block(&mut self, b: &[Stmt]) {
         self.indent += 1;
-        for s in b {
-            self.stmt(s);
+        let tail = self.in_tail;
+        self.in_tail = false;
+        for (i, s) in b.iter().enumerate() {
+            if tail && i + 1 == b.len() {
+                self.tail_stmt(s);
+            } else {
+                self.stmt(s);
+            }
         }
+        self.in_tail = tail;
         self.indent -= 1;
+    }
+
+    /// the statement that ends a function body (or a branch of the if / case that ends it)
+    fn tail_stmt(&mut self, s: &Stmt) {
+        match s {
+            Stmt::Expr(e) if !matches!(e, Expr::If(..) | Expr::Case(..)) => {
+                let as_ret = match self.opts.ret_mask {
+                    Some(mask) => {
+                        let k = self.opts.ret_sites.fetch_add(1, std::sync::atomic::Ordering::Relaxed);
+                        if k < 64 { mask >> k & 1 == 1 } else { self.opts.explicit_ret }
+                    }
+                    None => self.opts.explicit_ret,
+                };
+                if as_ret {
+                    self.stmt(&Stmt::Ret(Some(e.clone())));
+                } else {
+                    self.stmt(s);
+                }
+            }
+            _ => self.stmt(s),
+        }
     }
 
     /// function bodies: the last expression statement may be printed as `ret e`
     fn fn_body(&mut self, b: &[Stmt]) {
         self.indent += 1;
+        let old = self.in_tail;
+        self.in_tail = false;
         for (i, s) in b.iter().enumerate() {
-            if i + 1 == b.len() && self.opts.explicit_ret {
-                if let Stmt::Expr(e) = s {
-                    if !matches!(e, Expr::If(..) | Expr::Case(..)) {
-                        self.stmt(&Stmt::Ret(Some(e.clone())));
-                        continue;
-                    }
-                }
+            if i + 1 == b.len() {
+                self.tail_stmt(s);
+            } else {
+                self.stmt(s);
             }
-            self.stmt(s);
         }
+        self.in_tail = old;
         self.indent -= 1;
     }
 
